@@ -123,7 +123,10 @@ def gen_messages(r, module, specs, header_frame):
     seq = 2
     while i < len(recs):
         k = r.choice([1, 1, 2, 3])
-        frames.append(gens.frame(seq, b"\r".join(recs[i:i + k]), True))
+        fr = gens.frame(seq, b"\r".join(recs[i:i + k]), True)
+        if r.random() < 0.2:
+            fr = fr[:-4] + fr[-4:-2].lower() + fr[-2:]      # lower-case checksum characters are valid
+        frames.append(fr)
         seq += 1
         i += k
     return frames, {"records": n, "unknown": unknown, "violating": violating, "frames": len(frames)}
